@@ -128,6 +128,11 @@ def run(ctx):
             kn = np.abs(np.asarray(sol.K_tensor)).max()
             recs.append({'ev': 'covar', 'tag': tag + ':crystalframe', 'a': fx(sol.displacement(p)) + fx(sol.stress(p) / nrm) + fx(np.real(sol.K_tensor) / kn),
                          'b': fx(sol2.displacement(p)) + fx(sol2.stress(p) / nrm) + fx(np.real(sol2.K_tensor) / kn), 'tol': 16})
+            # ---- the same orientation through the legacy keyword `axes`, given as NON-unit vectors (rows scaled by positive numbers) --------
+            sc_ = np.array([[2.0], [0.5], [3.0]]) * float(np.abs(R0).max() * 7)
+            sol4 = solve_volterra_dislocation(C, b_cr, axes=R0 * sc_)
+            recs.append({'ev': 'covar', 'tag': tag + ':axes_nonunit', 'a': fx(sol.displacement(p)) + fx(sol.stress(p) / nrm) + fx(sol.burgers),
+                         'b': fx(sol4.displacement(p)) + fx(sol4.stress(p) / nrm) + fx(sol4.burgers), 'tol': 16})
             # ---- covariance: (m, n) = (y, z): the same physical field in permuted coordinates ------------------------------
             sol3 = solve_volterra_dislocation(C, b_cr, transform=P3 @ R0, m='y', n='z')
             p3 = P3 @ p
@@ -163,6 +168,37 @@ def run(ctx):
                      'b': fx(sB.displacement(p)) + fx(sB.stress(p) / nrm), 'tol': 16})
     except Exception as e:
         ctx.violation('Volterra solution by Miller indices raised %s' % excname(e), repr(e)[:200])
+    # ---- Miller-index orientation in cells that are not the unit cube, anisotropic AND isotropic constants, 3 and 4 indices:
+    #      the jump is the Cartesian Burgers vector of THAT cell, the field equals the one obtained from the returned rotation
+    mil = [('cubic1', am.Box.cubic(4.05), [0.5, -0.5, 0.0], [1, 1, -2], [1, 1, 1], 'edge'),
+           ('isotropic', am.Box.cubic(4.05), [0.5, -0.5, 0.0], [1, 1, -2], [1, 1, 1], 'edge'),
+           ('isotropic', am.Box.cubic(3.3), [0.5, 0.5, 0.5], [1, 1, 1], [1, -1, 0], 'screw'),
+           ('cubic2', am.Box.cubic(3.3), [0.5, 0.5, 0.5], [1, 1, 1], [1, -1, 0], 'screw'),
+           ('isotropic', am.Box.hexagonal(3.2, 5.2), [1 / 3, 1 / 3, -2 / 3, 0], [-1, 1, 0, 0], [0, 0, 0, 1], 'edge'),
+           ('hexagonal', am.Box.hexagonal(3.2, 5.2), [1 / 3, 1 / 3, -2 / 3, 0], [-1, 1, 0, 0], [0, 0, 0, 1], 'edge'),
+           ('isotropic', am.Box.hexagonal(3.2, 5.2), [1 / 3, 1 / 3, -2 / 3, 0], [1, 1, -2, 0], [0, 0, 0, 1], 'screw'),
+           ('isotropic', am.Box.hexagonal(3.2, 5.2), [1.0, 0.0, 0.0], [0, 1, 0], [0, 0, 1], 'mixed')]
+    for cname, box, buvw, xi, hkl, kind in mil:
+        tag = 'miller:%s:%s:%d-index:%s' % (cname, 'cubic' if box.iscubic() else 'hex', len(xi), kind)
+        try:
+            C = classes[cname]()
+            sA = solve_volterra_dislocation(C, np.array(buvw), ξ_uvw=xi, slip_hkl=hkl, box=box)
+            bcart = box.vector_crystal_to_cartesian(np.array(buvw)) if len(buvw) == 3 else box.vector_crystal_to_cartesian(am.tools.miller.vector4to3(np.array(buvw)))
+            sB = solve_volterra_dislocation(C, bcart, transform=sA.transform)
+            p = np.array([2.1, 1.3, 0.0])
+            nrm = np.abs(sA.stress(p)).max()
+            recs.append({'ev': 'covar', 'tag': tag, 'a': fx(sA.displacement(p)) + fx(sA.stress(p) / nrm),
+                         'b': fx(sB.displacement(p)) + fx(sB.stress(p) / nrm), 'tol': 16})
+            if kind != 'mixed':
+                bm = float(np.linalg.norm(bcart))
+                want = [bm, 0.0, 0.0] if kind == 'edge' else [0.0, 0.0, bm]
+                up, dn = sA.displacement(np.array([-3.0, 1e-9, 0.25])), sA.displacement(np.array([-3.0, -1e-9, 0.25]))
+                up2, dn2 = sA.displacement(np.array([3.0, 1e-9, 0.25])), sA.displacement(np.array([3.0, -1e-9, 0.25]))
+                if np.abs(np.abs(sA.burgers) - np.array(want)).max() > 1e-9:
+                    ctx.violation('Burgers vector of a Miller-index problem is not the Cartesian vector of the given cell', 'got %s expected +-%s %s' % (sA.burgers.tolist(), want, tag))
+                recs.append({'ev': 'jump', 'tag': tag, 'up': fx(up), 'dn': fx(dn), 'up2': fx(up2), 'dn2': fx(dn2), 'b': fx(np.sign(sA.burgers[0] + sA.burgers[2]) * np.array(want)), 'tol': 16})
+        except Exception as e:
+            ctx.violation('Volterra solution by Miller indices raised %s' % excname(e), repr(e)[:200] + ' ' + tag)
     # ---- isotropic closed form: pi * sigma at integer points is an exact rational -------------------------------------------------
     S14 = 1 << 14
     for (mu, nun, nud, be, bs) in ((30, 1, 4, 1, 0), (30, 1, 4, 0, 1), (44, 1, 3, 1, 1), (26, 3, 10, -1, 2)):
